@@ -54,6 +54,9 @@ def single_controls():
     for t in (H, H + 21 * 60 + 40):
         for rp in (2 * H, True):
             out.append(dict(ctl("time", "=", t, "CLOSED"), repeat=rp))
+    # first instant at or beyond one period: nothing happens before it
+    for t, rp in ((2 * H, 2 * H), (3 * H + 18 * 60, 2 * H), (25 * H, True), (5 * H, H)):
+        out.append(dict(ctl("time", "=", t, "CLOSED"), repeat=rp))
     for c in (H, 6 * H + 1800):
         out.append(dict(ctl("clock", "=", c, "CLOSED"), repeat=False))
     for rel in RELS:
